@@ -26,7 +26,17 @@ BIG = [('L', 'def'), ('L2', 'def'), ('L', 'uonly')]     # 41 fields: generated c
 NAMED = [('U', 'def'), ('U2', 'def'), ('U', 'novec')]   # field names that are not ascii (each with one letter beyond ascii)
 
 
+FACTORY = [('M', 'def'), ('M2', 'def'), ('M', 'novec')]   # one class statement, the same generated text, different field objects
+
+
+REUSE = [('A', 'def'), ('A2', 'def'), ('B', 'def')]     # definitions only, one process after a warm-up: longer sequences within ONE process
+
+
 def alphabet(tier, big=False):
+    if big == 'reuse':
+        return [('define',) + d for d in REUSE]
+    if big == 'factory':
+        return [('define',) + d for d in FACTORY] + CTRL
     if big == 'names':
         return [('define',) + d for d in NAMED] + CTRL
     if big == 'desc':
@@ -138,7 +148,11 @@ def _shard(shard, nshards, payload):
     idx = 0
     replayed = 0
     seeds = [(), (('define', 'A', 'def'), ('newproc',)), (('define', 'A2', 'noann'), ('newproc',), ('define', 'A2', 'noann'), ('newproc',))]
-    if payload.get('big') == 'names':
+    if payload.get('big') == 'reuse':
+        seeds = [(('define', 'A', 'def'), ('newproc',)), (('define', 'B', 'def'), ('newproc',))]
+    elif payload.get('big') == 'factory':
+        seeds = [(), (('define', 'M', 'def'), ('newproc',))]
+    elif payload.get('big') == 'names':
         seeds = [(), (('define', 'U2', 'def'), ('newproc',), ('define', 'U2', 'def'), ('newproc',))]
     elif payload.get('big') == 'desc':
         seeds = [(), (('define', 'D2', 'def'), ('newproc',), ('define', 'D2', 'def'), ('newproc',))]
@@ -276,6 +290,8 @@ def run(tier):
     st.merge(common.merge_all(common.run_sharded(_shard, {'tier': tier, 'depth': depth + 1, 'replays': 2, 'big': True})))
     st.merge(common.merge_all(common.run_sharded(_shard, {'tier': tier, 'depth': depth, 'replays': 2, 'big': 'desc'})))
     st.merge(common.merge_all(common.run_sharded(_shard, {'tier': tier, 'depth': depth, 'replays': 2, 'big': 'names'})))
+    st.merge(common.merge_all(common.run_sharded(_shard, {'tier': tier, 'depth': depth, 'replays': 2, 'big': 'factory'})))
+    st.merge(common.merge_all(common.run_sharded(_shard, {'tier': tier, 'depth': depth + 2, 'replays': 0, 'big': 'reuse'})))
     st.merge(common.merge_all(common.run_sharded(real_shard, {'tier': tier})))
     st.merge(common.merge_all(common.run_sharded(similar_shard, {'tier': tier})))
     if not st.samples:
@@ -287,10 +303,10 @@ def run(tier):
         'real_process_replays': st.n.get('real_replays', 0), 'definitions_checked': st.n.get('definitions', 0),
         'real_process_histories_with_mixed_optimisation_levels': st.n.get('real_histories', 0), 'real_definitions': st.n.get('real_definitions', 0),
         'rule': 'all histories of length <=%d (also started from a cache directory that earlier processes filled for A resp. A2 with bytecode) ending in a definition over %d operations (define x %d declaration/option pairs incl. two declarations whose '
-                'generated source has the same length, new process, clock tick, bytecode toggle, forget sources), and all histories one longer over two LONG declarations (41 fields, a cache file of more than 8 KiB) that differ in the byte order of their last field, and all histories over two declarations whose per-field code is identical but whose described field has another descriptor (AutoLength / a user-written one without sync hook), and all histories over two declarations whose field names are not ascii (tama\u00f1o, se\u00f1al), on real files with harness time stamps; plus all pairs of declarations that differ only in the ORDER of two three-letter field names over a three-letter alphabet (351 pairs, thorough 2016), defined one right after the other in one module'
+                'generated source has the same length, new process, clock tick, bytecode toggle, forget sources), and all histories one longer over two LONG declarations (41 fields, a cache file of more than 8 KiB) that differ in the byte order of their last field, and all histories over two declarations whose per-field code is identical but whose described field has another descriptor (AutoLength / a user-written one without sync hook), and all histories over two declarations whose field names are not ascii (tama\u00f1o, se\u00f1al), and all histories (also started from a cache an earlier process filled) over two declarations from ONE class statement whose generated code is textually identical (the delimiter lives in the field object), and all sequences of %d definitions of three declarations within ONE process that meets a cache an earlier process filled, on real files with harness time stamps; plus all pairs of declarations that differ only in the ORDER of two three-letter field names over a three-letter alphabet (351 pairs, thorough 2016), defined one right after the other in one module'
                 '(everything within one second unless a tick occurs); every definition and every class still alive in the process checked on a battery '
                 'against its own declaration; transitions = interposed file-system steps; states = distinct final (directory contents+mtimes, clock)' % (
-                    depth, len(alphabet(tier)), len(alphabet(tier)) - len(CTRL)),
+                    depth, len(alphabet(tier)), len(alphabet(tier)) - len(CTRL), depth + 2),
         'exhaustive': True, 'bounds': {'depth': depth, 'depth_for_the_long_declarations': depth + 1}, 'distinct_outcomes': st.count('outcomes'), 'samples': st.samples,
     }
     errs = [n for n in st.notes if n.startswith('HARNESS')]
